@@ -132,6 +132,9 @@ def rand_stmt(rnd, depth=0, names=NAMES, files=(), allow_ctl=True):
         st.quote = rnd.choice("\"'/")
     elif r < 0.62:
         st = apm.blk(rnd.choice([".blkb", ".blkw", ".align"]), rand_expr(rnd, 2, names))
+        if rnd.random() < 0.06:
+            # fills that bring the image to the edge of, or past, what the address space and the container headers can describe
+            st = apm.blk(rnd.choice([".blkb", ".blkb", ".blkw"]), apm.num(rnd.choice([0o177776, 0o177777, 0o177770, 0o100000, 65535, 65536, 0o77777]), rnd.choice([None, "d"])))
     elif r < 0.66:
         st = apm.simple(rnd.choice([".even", ".odd"]))
     elif r < 0.74:
@@ -150,8 +153,10 @@ def rand_stmt(rnd, depth=0, names=NAMES, files=(), allow_ctl=True):
             apm.simple(".end"), apm.simple(".once"),
             apm.extern(*[rnd.choice(names + ["all"]) for _ in range(rnd.randrange(1, 3))]),
             apm.simple(rnd.choice(["make_bin", "make_raw", "make_wav", "make_turbo_wav", "make_bk0010_rom"]),
-                       *([f'"{rnd.choice(["out.bin", "o/x.wav", "name", ""])}"'] if rnd.random() < 0.6 else [])),
-            apm.simple(rnd.choice([".list", ".nlist", ".page", ".title some text", ".sbttl sub title", ".ident /v1/", ".error oops", ".error"])),
+                       *([f'"{rnd.choice(["out.bin", "o/x.wav", "name", ""])}"' + rnd.choice(["", "", ', "NAME"', ", <40000000000>", ', "a" <300> <1114112.>'])]
+                         if rnd.random() < 0.6 else [])),
+            apm.simple(rnd.choice([".list", ".nlist", ".page", ".title some text", ".sbttl sub title", ".ident /v1/", ".error oops", ".error",
+                                   ".ident <40000000000>", ".ident <-1>", ".title <1114112.> /x/", ".error <4294967296.>", ".ident <nosuch>", ".ident"])),
         ])
     elif r < 0.94 and files and allow_ctl:
         st = rnd.choice([apm.include(rnd.choice(files)), apm.insert_file(rnd.choice(files + ("blob.bin",)))])
